@@ -179,6 +179,12 @@ package proto
 //@   requires uvAt(arrayof(s), offset(s) + p, x)
 //@   ensures uvAt(arrayof(t), offset(t) + p, x) {varint-image-survives}
 
+//@ contract lemmaUvAtCopy(s, t, so, to, n, p, x) props(C01,C17)
+//@   requires 0 <= so && 0 <= to && 0 <= n && so + n <= len(s) && to + n <= len(t) && so <= p && p + uvsize(x) <= so + n
+//@   requires forall i :: trigger(arrayof(t)[i], offset(t) + to <= i && i < offset(t) + to + n ==> arrayof(t)[i] == arrayof(s)[i - offset(t) - to + offset(s) + so])
+//@   requires uvAt(arrayof(s), offset(s) + p, x)
+//@   ensures uvAt(arrayof(t), offset(t) + to + (p - so), x) {varint-image-is-carried-over}
+
 //@ contract (b *Buffer) PutUInt8(x) props(C01,C17)
 //@   requires b != nil
 //@   modifies b.Buf
